@@ -10,7 +10,7 @@ from .common import guarded
 OPS_BY_PROP = {
     'C05': ['new', 'iter', 'copy', 'getslice', 'getbit', 'setslice', 'add', 'pad'],
     'C06': ['shift', 'and', 'or', 'xor', 'invert', 'value', 'chunks'],
-    'C13': ['eq', 'hash', 'eqbytes'],
+    'C13': ['eq', 'hash', 'eqbytes', 'hashset'],
 }
 PROP_OF_OP = {op: p for p, ops in OPS_BY_PROP.items() for op in ops}
 
@@ -91,6 +91,15 @@ def impl(line: str) -> str:
             return f"{key.hex() or '-'} {show(b)}" if ok else f"hash-not-of-left-content {show(b)}"
         if op == 'chunks':
             return ' '.join(show(c) for c in mk(a[0]).chunks(int(a[1]), padding=(a[2] == '1')))
+        if op == 'hashset':
+            # a Buffer used as a key, then modified by slice assignment, then compared with a freshly built equal one
+            b = mk(a[0]); hash(b); {b: 1}
+            b[int(a[1]):int(a[2])] = mk(a[3])
+            fresh = Buffer(content=b.content, length=b.length, padding=b.padding)
+            other = fresh.pad(Padding.RIGHT if b.padding is Padding.LEFT else Padding.LEFT, inplace=False)
+            ok_eq = (b == fresh) and (b == other)
+            ok_hash = hash(b) == hash(fresh) == hash(other) and (b in {fresh: 1}) and (other in {b})
+            return f"{'true' if ok_eq else 'false'} {'true' if ok_hash else 'false'}"
         raise ValueError('bad op ' + op)
     k, v = guarded(run, 10.0)
     return v if k == 'ok' else 'err:' + v
@@ -190,6 +199,9 @@ def oracle(line: str, out: str):
         # equal buffers must hash alike: the hashed key must be a function of the bits alone
         if r[0] != (spec.canonical_content(b, 'L').hex() or '-'): bad('C13', [f'hash key {r[0]} depends on more than the bits {b}'])
         m = _same(r[1], a[0]); bad('C16', m)
+    elif op == 'hashset':
+        if r[0] != 'true': bad('C13', ['a modified buffer does not equal a freshly built one with the same bits'])
+        if r[1] != 'true': bad('C13', ['equal buffers hash differently after a slice assignment (stale hash)'])
     elif op == 'eqbytes':
         pass
     return v
@@ -286,6 +298,15 @@ def gen(props, tier, rng):
         for x in small:
             yield f"buf eqbytes {E(x)} {spec.canonical_content(x[0], x[1]).hex() or '-'}"
             yield f"buf eqbytes {E(x)} 06"
+    if 'hashset' in ops:
+        tiny = [(b, s) for b in all_bits(4) for s in 'LR']
+        vals = [(b, s) for b in all_bits(2) for s in 'LR']
+        for x in tiny:
+            n = len(x[0])
+            for i in range(n + 1):
+                for j in range(i, n + 1):
+                    for v in vals:
+                        yield f'buf hashset {E(x)} {i} {j} {E(v)}'
     if 'setslice' in ops:
         K = 5 if tier == 'quick' else 6
         tiny = [(b, s) for b in all_bits(K) for s in 'LR']
